@@ -676,6 +676,9 @@ def gen(tier, rng):
         for op in sops:
             yield ('set_exhaustive_state_x_op', 2, [[], path + [op], sprobes, len(path)])
             yield ('set_exhaustive_state_x_op', 2, [[k for k, _ in st], [op], sprobes, 0])
+    for n in range(0, 4 if quick else 5):
+        for ks in itertools.product(['a', 'A', 'b'], repeat=n):
+            yield ('set_exhaustive_constructor', 2, [list(ks), [[S_ADD, 'B'], [S_LOWER]], ['a', 'A', 'b', 'z'], 0])
     ssmall = [[S_ADD, 'a'], [S_ADD, 'A'], [S_ADD, 'B'], [S_DISCARD, 'A'], [S_DISCARD, 'b'], [S_REMOVE, 'a'], [S_REMOVE, 'B'],
               [S_LOWER], [S_CLEAR], [S_POP], [S_IOR, ['b', 'A']], [S_ISUB, ['a', 'B']]]
     for n in range(1, (3 if quick else 4) + 1):
@@ -768,8 +771,8 @@ RULE = ('A case is a HISTORY on one of the four classes: constructor arguments, 
         'length <= 60 over mixed-case keys of length 0..5 with digits, symbols and caseless non-ASCII characters. distinct = distinct '
         '(function, argument); non-trivial = the history passes through a non-empty container.')
 EXHAUSTIVE = {
-    'quick': 'mappings: all 41 reference states over keys {a,A,b,B} x values {1,2} x all 48 operation instances x 3 classes (state reached by setitem; a third of the operations also from the constructor); all histories of length <= 3 over a 15-operation alphabet; all constructor lists of <= 3 pairs over {a,A,b}. set: all 13 states over {a,A,b,B} x 29 operation instances (by add path and by constructor); all histories of length <= 3 over 12 operations',
-    'thorough': 'mappings: as quick, plus all 79 states over {a,A,b,B,c,C} x value 1 x 68 operation instances and all 85 states over {a,A,b,B} x values {1,2,3} x 52 operation instances, x 3 classes; all histories of length <= 3 over 15 operations and of length 4 over 11 operations; all constructor lists of <= 4 pairs. set: all 79 states over {a,A,b,B,c,C} x 39 operation instances; all histories of length <= 4 over 12 operations',
+    'quick': 'mappings: all 41 reference states over keys {a,A,b,B} x values {1,2} x all 48 operation instances x 3 classes (state reached by setitem; a third of the operations also from the constructor); all histories of length <= 3 over a 15-operation alphabet; all constructor lists of <= 3 pairs over {a,A,b}. set: all 13 states over {a,A,b,B} x 29 operation instances (by add path and by constructor); all constructor lists of <= 3 keys over {a,A,b}; all histories of length <= 3 over 12 operations',
+    'thorough': 'mappings: as quick, plus all 79 states over {a,A,b,B,c,C} x value 1 x 68 operation instances and all 85 states over {a,A,b,B} x values {1,2,3} x 52 operation instances, x 3 classes; all histories of length <= 3 over 15 operations and of length 4 over 11 operations; all constructor lists of <= 4 pairs. set: all 79 states over {a,A,b,B,c,C} x 39 operation instances; all constructor lists of <= 4 keys; all histories of length <= 4 over 12 operations',
 }
 TRUSTED_BASE = ['modelled (not verified) code: pybtex/utils.py:80-379 (the four container classes) and the MutableMapping / MutableSet mix-ins of CPython 3.12 Lib/_collections_abc.py that they inherit (get pop popitem clear update setdefault keys items values; remove pop clear |= -=)',
                 'repr() is compared as the data it prints (parsed back with ast.literal_eval), not as text']
